@@ -452,6 +452,21 @@ int main(void)
 			it_begin();
 			lh_foreach(T, e) it_add((const char *)lh_entry_k(e), (long)(intptr_t)lh_entry_v(e));
 			it_end();
+			{
+				/* the list is doubly linked (lh_entry_prev is public): walked backwards from the tail it must be the
+				 * same entries in reverse, and the head has no predecessor */
+				long fwd = 0, back = 0;
+				struct lh_entry *b, *last = NULL;
+				lh_foreach(T, e) { fwd++; last = e; }
+				for (b = T->tail; b && back <= fwd; b = lh_entry_prev(b))
+					back++;
+				if (fwd != back || last != T->tail || (T->head && lh_entry_prev(T->head) != NULL))
+				{
+					puts("iter lh: the prev links do not mirror the next links");
+					fflush(stdout);
+					continue;
+				}
+			}
 			show(0, 0, 0, itbuf, -1, 1);
 		}
 		else if (O && NW == 4 && !strcmp(W[0], "oadd"))
